@@ -172,7 +172,10 @@ def gen_cli_case(rnd, i):
         # both selectors: the -o target is a requested output in any case; the implicit one beside it is not judged
         opts = opts + ["--implicit-bin"]
     second = rnd.choice([None, None, "zz2nd.mac", "other/tail.mac", "aa0.mac"])
-    return {"kind": "cli", "base": base, "image": img.hex(), "src": stem + suffix, "srcdir": srcdir, "directives": directives,
+    # the tape name is text in the selected output charset: up to 16 BYTES of it
+    charset = rnd.choice([None, None, None, "utf-8", "koi8-r", "cp866"]) if any(d[0].endswith("wav") for d in directives) else None
+    incdir = rnd.choice([None, None, None, "lib", "lib/deep"]) if directives and not any((d[1] or "").startswith("../") or "/../" in (d[1] or "") for d in directives) else None
+    return {"charset": charset, "incdir": incdir, "kind": "cli", "base": base, "image": img.hex(), "src": stem + suffix, "srcdir": srcdir, "directives": directives,
             "opts": opts, "where": rnd.choice(["top", "bottom", "middle"]), "quote": rnd.choice("\"'/"), "second": second}
 
 
@@ -275,15 +278,18 @@ def run_case(case, cnt=None):
         dlines = []
         expected = {}     # abs path -> (fmt, name16)
         expect_fail = False
+        # the directives may sit in an included file of another directory: their paths (and the default name) go with THAT file
+        ddir = os.path.join(srcdir, case["incdir"]) if case.get("incdir") else srcdir
+        dsrc = "part.mac" if case.get("incdir") else case["src"]
         for d, path, name in case["directives"]:
             line = d
             if path is not None:
                 p = path.replace("@ABS@", absdir)
                 line += f" {q}{p}{q}"
-                target = p if os.path.isabs(p) else os.path.normpath(os.path.join(srcdir, p))
+                target = p if os.path.isabs(p) else os.path.normpath(os.path.join(ddir, p))
             else:
-                stem = case["src"][:-4] if case["src"].lower().endswith(".mac") else case["src"]
-                target = os.path.join(srcdir, stem + {"make_bin": ".bin", "make_bk0010_rom": ".bin", "make_raw": "", "make_wav": ".wav", "make_turbo_wav": ".wav"}[d])
+                stem = dsrc[:-4] if dsrc.lower().endswith(".mac") else dsrc
+                target = os.path.join(ddir, stem + {"make_bin": ".bin", "make_bk0010_rom": ".bin", "make_raw": "", "make_wav": ".wav", "make_turbo_wav": ".wav"}[d])
             fmt = {"make_bin": "bin", "make_bk0010_rom": "bin", "make_raw": "raw", "make_wav": "bk_wav", "make_turbo_wav": "bk_turbo_wav"}[d]
             name16 = None
             if fmt.endswith("wav"):
@@ -294,7 +300,11 @@ def run_case(case, cnt=None):
                     tape = os.path.basename(target)
                     if tape.lower().endswith(".wav"):
                         tape = tape[:-4]
-                enc = bk_ref_encode(tape)
+                cs = case.get("charset")
+                try:
+                    enc = bk_ref_encode(tape) if not cs else tape.encode(cs)
+                except (UnicodeEncodeError, ValueError):
+                    enc = b"?" * 17                   # not encodable in the selected charset: an error, like a name that is too long
                 if len(enc) > 16:
                     expect_fail = True
                 name16 = enc[:16].ljust(16, b" ")
@@ -308,6 +318,11 @@ def run_case(case, cnt=None):
             # the image comes from two linked sources; every default path is derived from the FIRST one
             k2 = 1 + (len(body) - 1) // 2
             body, body2 = body[:k2], body[k2:]
+        if case.get("incdir") and dlines:
+            os.makedirs(os.path.join(ddir, "out"), exist_ok=True)
+            with open(os.path.join(ddir, "part.mac"), "w", encoding="utf-8") as f:
+                f.write("\n".join(dlines) + "\n")
+            dlines = [f'.include "{case["incdir"]}/part.mac"']
         if case["where"] == "top":
             lines = dlines + body
         elif case["where"] == "bottom":
@@ -327,6 +342,8 @@ def run_case(case, cnt=None):
             argv.append(case["second"])
         opts = [o.replace("@ABS@", absdir) for o in case["opts"]]
         argv += opts
+        if case.get("charset"):
+            argv += ["--charset", case["charset"]]
         if opts[:1] == ["-o"]:
             target = opts[1] if os.path.isabs(opts[1]) else os.path.normpath(os.path.join(cwd, opts[1]))
             expected[target] = ("bin" if opts[1].lower().endswith(".bin") else "raw", None)
